@@ -9,6 +9,7 @@ mod domains;
 mod forge;
 mod matrix;
 mod mutate;
+mod parser_check;
 mod pihash;
 mod pubinput;
 mod queries;
@@ -71,6 +72,7 @@ fn main() {
         "boundary" => Some(boundary::run(&args)),
         "coeffs" => Some(coeffs::run(&args)),
         "pubinput" => Some(pubinput::run(&args)),
+        "parser" => Some(parser_check::run(&args)),
         _ => vcomp::dispatch(&args),
     };
     match rep {
